@@ -1497,12 +1497,12 @@ EXPR_KINDS = ['sum', 'comp', 'lscal', 'rscal', 'lvec', 'rvec', 'vecsum',
               'pwprod', 'neg', 'pow', 'div']
 
 
-def expr(o, key, depth, linear=False):
+def expr(o, key, depth, linear=False, force=None):
     """Pick an endomorphism expression tree; returns f(space) -> operator."""
     if depth == 0:
         return endo(o, key, linear=linear)
     kinds = ['sum', 'comp', 'lscal', 'rscal', 'neg'] if linear else EXPR_KINDS
-    k = o.pick(key + '.x', kinds)
+    k = force if force is not None else o.pick(key + '.x', kinds)
     a = expr(o, key + 'a', depth - 1, linear)
     b = expr(o, key + 'b', depth - 1, linear) \
         if k in ('sum', 'comp', 'pwprod') else None
@@ -1555,36 +1555,14 @@ def _expr_entry(kind, cls):
     @entry('expr.' + kind, 'expr', classes=[cls], weight=2)
     def _f(o):
         sd = anyspace(o, 'space', kinds=('rn', 'discr', 'cn'), medium=True)
-        o.opts['t.x'] = kind
         depth = o.pick('depth', (1, 1, 2))
-        lin = o.flag('linear')
-        if kind in ('lvec', 'rvec', 'vecsum', 'pwprod', 'pow', 'div') and lin:
-            lin = False
-        # force the top-level node kind, operands are drawn
-        saved = o.draw
-        e = _forced_expr(o, 't', depth, lin, kind)
-        o.draw = saved
+        lin = o.flag('linear') and kind in ('sum', 'comp', 'lscal', 'rscal',
+                                            'neg')
+        # the top-level node kind is fixed, the operands are drawn
+        e = expr(o, 't', depth, lin, force=kind)
         o.dom = 'mod'
         return lambda: e(B(sd))
     return _f
-
-
-def _forced_expr(o, key, depth, linear, kind):
-    class _Forced(Src):
-        pass
-    orig_pick = o.pick
-
-    def pick(k, strat):
-        if k == key + '.x':
-            if o.draw is not None:
-                o.opts[k] = kind
-            return kind
-        return orig_pick(k, strat)
-    o.pick = pick
-    try:
-        return expr(o, key, depth, linear)
-    finally:
-        o.pick = orig_pick
 
 
 for _k, _c in [('sum', 'OperatorSum'), ('comp', 'OperatorComp'),
@@ -1605,8 +1583,11 @@ for _k, _c in [('sum', 'OperatorSum'), ('comp', 'OperatorComp'),
                 'OperatorRightVectorMult'])
 def _expr_derived(o):
     """derivative(x) / adjoint / inverse of expression trees."""
-    sd = anyspace(o, 'space', kinds=('rn', 'discr', 'cn'), medium=False)
     how = o.pick('how', ('derivative', 'adjoint', 'inverse'))
+    # (MultiplyOperator.adjoint cannot conjugate on non-power complex
+    # product spaces: adjoints are drawn on real spaces)
+    sd = anyspace(o, 'space', kinds=('rn', 'discr') if how == 'adjoint'
+                  else ('rn', 'discr', 'cn'), medium=False)
     depth = o.pick('depth', (1, 2))
     if how == 'derivative':
         e = expr(o, 't', depth, False)
@@ -1699,3 +1680,861 @@ def _flvm(o):
             return op.adjoint
         return op
     return mk
+
+
+# --- odl.trafos -----------------------------------------------------------
+
+def _axes_pick(o, nd):
+    ak = o.pick('axk', ('all', 'all', 'subset', 'neg'))
+    if ak == 'all' or nd == 1:
+        return None
+    if ak == 'neg':
+        return [-1]
+    k = o.pick('naxes', st.integers(1, nd))
+    return o.pick('axes', st.permutations(list(range(nd)))) [:k]
+
+
+def _ft_space(o, real=True):
+    sd = space(o, 'space', kinds=('cdiscr', 'discr') if real else
+               ('cdiscr',), ndims=(1, 3), min_side=2, max_side=6,
+               max_size=64, medium=False, weighted=False, nob=False,
+               f32=False)
+    return sd
+
+
+@entry('DiscreteFourierTransform', 'trafo', weight=4,
+       classes=['DiscreteFourierTransform',
+                'DiscreteFourierTransformInverse'])
+def _dft(o):
+    sd = _ft_space(o)
+    nd = len(sd['shape'])
+    real = not _is_cplx(sd)
+    impl = o.pick('impl', ('numpy', 'pyfftw'))
+    axes = _axes_pick(o, nd)
+    hc = o.flag('halfcomplex') if real else False
+    sign = o.pick('sign', ('-', '-', '+')) if not hc else '-'
+    how = o.pick('how', ('op', 'op', 'inverse', 'adjoint', 'invinv'))
+    if real and not hc:
+        # F19 (C18): the r2c variant is wrong on pyfftw, its inverse raises
+        how = 'op'
+        impl = 'numpy'
+        o.opts['impl'] = impl
+    plan = o.flag('plan') and impl == 'pyfftw'
+    f32 = o.flag('f32')
+    o.opts['naxes'] = nd if axes is None else len(axes)
+    o.dom = 'mod'
+
+    def mk():
+        sp = B(sd)
+        if f32:
+            sp = sp.astype('complex64' if sp.is_complex else 'float32')
+        op = odl.trafos.DiscreteFourierTransform(
+            sp, axes=axes, sign=sign, halfcomplex=hc, impl=impl)
+        if how == 'invinv':
+            op = op.inverse.inverse
+        elif how != 'op':
+            op = getattr(op, how)
+        if plan:
+            op.init_fftw_plan('estimate')
+        return op
+    return mk
+
+
+@entry('DiscreteFourierTransformInverse', 'trafo', weight=2)
+def _dft_inv(o):
+    """The inverse class constructed directly from its range."""
+    sd = _ft_space(o)
+    nd = len(sd['shape'])
+    real = not _is_cplx(sd)
+    impl = o.pick('impl', ('numpy', 'pyfftw'))
+    axes = _axes_pick(o, nd)
+    hc = True if real else False
+    sign = '+' if hc else o.pick('sign', ('+', '+', '-'))
+    o.opts['naxes'] = nd if axes is None else len(axes)
+    o.opts['halfcomplex'] = hc
+    o.dom = 'mod'
+
+    def mk():
+        return odl.trafos.DiscreteFourierTransformInverse(
+            B(sd), axes=axes, sign=sign, halfcomplex=hc, impl=impl)
+    return mk
+
+
+@entry('FourierTransform', 'trafo', weight=4,
+       classes=['FourierTransform', 'FourierTransformInverse'])
+def _ft(o):
+    sd = _ft_space(o)
+    nd = len(sd['shape'])
+    real = not _is_cplx(sd)
+    impl = o.pick('impl', ('numpy', 'pyfftw'))
+    axes = _axes_pick(o, nd)
+    # F30 (C18): real domains need halfcomplex=True and shift=True
+    hc = True
+    shift = True
+    if not real:
+        sk = o.pick('shiftk', ('true', 'false', 'mixed'))
+        na = nd if axes is None else len(axes)
+        shift = {'true': True, 'false': False}.get(sk)
+        if shift is None:
+            shift = [bool((i + o.pick('shift0', st.integers(0, 1))) % 2)
+                     for i in range(na)]
+    sign = o.pick('sign', ('-', '-', '+')) if not real else '-'
+    how = o.pick('how', ('op', 'op', 'inverse', 'adjoint', 'invinv'))
+    tmps = o.pick('tmps', ('none', 'none', 'create', 'plan'))
+    o.opts['naxes'] = nd if axes is None else len(axes)
+    o.opts['halfcomplex'] = hc and real
+    o.dom = 'mod'
+
+    def mk():
+        kw = {}
+        if axes is not None:
+            kw['axes'] = axes
+        op = odl.trafos.FourierTransform(B(sd), impl=impl, sign=sign,
+                                         halfcomplex=hc, shift=shift, **kw)
+        if tmps == 'create':
+            op.create_temporaries()
+        elif tmps == 'plan' and impl == 'pyfftw':
+            op.init_fftw_plan('estimate')
+        if how == 'invinv':
+            return op.inverse.inverse
+        return op if how == 'op' else getattr(op, how)
+    return mk
+
+
+WAVELETS = ['haar', 'db2', 'db3', 'sym2', 'coif1', 'bior1.3', 'rbio1.3']
+WPAD = ['constant', 'symmetric', 'periodic', 'order0', 'order1', 'pywt_periodic',
+        'reflect', 'antisymmetric', 'antireflect']
+
+
+@entry('WaveletTransform', 'trafo', weight=3,
+       classes=['WaveletTransform', 'WaveletTransformInverse'])
+def _wavelet(o):
+    sd = space(o, 'space', kinds=('discr', 'discr', 'cdiscr'), ndims=(1, 3),
+               min_side=4, max_side=9, max_size=200, medium=False,
+               weighted=False, nob=False, f32=True)
+    wav = o.pick('wavelet', WAVELETS)
+    nlev = o.pick('nlevels', (1, 1, 2, None))
+    pm = o.pick('pad_mode', WPAD)
+    how = o.pick('how', ('op', 'op', 'inverse', 'adjoint', 'invinv',
+                         'direct_inverse'))
+    axes = _axes_pick(o, len(sd['shape']))
+    o.dom = 'mod'
+
+    def mk():
+        sp = B(sd)
+        kw = dict(wavelet=wav, nlevels=nlev, pad_mode=pm)
+        if axes is not None:
+            kw['axes'] = axes
+        if how == 'direct_inverse':
+            return odl.trafos.WaveletTransformInverse(sp, **kw)
+        op = odl.trafos.WaveletTransform(sp, **kw)
+        if how == 'invinv':
+            return op.inverse.inverse
+        return op if how == 'op' else getattr(op, how)
+    return mk
+
+
+# --- odl.deform, odl.tomo -------------------------------------------------
+
+def _deform_space(o):
+    return space(o, 'space', kinds=('discr',), ndims=(1, 2), min_side=3,
+                 max_side=6, max_size=40, medium=False, weighted=False,
+                 nob=False, f32=False)
+
+
+def _interp_pick(o, nd):
+    ik = o.pick('ikind', ('linear', 'nearest', 'peraxis'))
+    if ik != 'peraxis':
+        return ik
+    return [o.pick('i%d' % i, ('nearest', 'linear')) for i in range(nd)]
+
+
+@entry('LinDeformFixedTempl', 'deform', weight=2)
+def _deform_templ(o):
+    sd = _deform_space(o)
+    interp = _interp_pick(o, len(sd['shape']))
+    seed = o.seed()
+    how = o.pick('how', ('op', 'op', 'derivative'))
+    o.dom = 'tiny'
+
+    def mk():
+        sp = B(sd)
+        op = odl.deform.LinDeformFixedTempl(vec(sp, seed), interp=interp)
+        if how == 'derivative':
+            return op.derivative(vec(op.domain, seed + 1, 'tiny'))
+        return op
+    return mk
+
+
+@entry('LinDeformFixedDisp', 'deform', weight=2)
+def _deform_disp(o):
+    sd = _deform_space(o)
+    interp = _interp_pick(o, len(sd['shape']))
+    seed = o.seed()
+    how = o.pick('how', ('op', 'op', 'inverse', 'adjoint'))
+    o.dom = 'mod'
+
+    def mk():
+        sp = B(sd)
+        op = odl.deform.LinDeformFixedDisp(
+            vec(sp.tangent_bundle, seed, 'tiny'), interp=interp)
+        return op if how == 'op' else getattr(op, how)
+    return mk
+
+
+@entry('RayTransform', 'tomo', slow=True,
+       classes=['RayTransform', 'RayBackProjection'])
+def _ray(o):
+    n = o.pick('n', (4, 6, 8))
+    nang = o.pick('nang', (3, 5, 6))
+    ndet = o.pick('ndet', (8, 12))
+    how = o.pick('how', ('op', 'op', 'adjoint', 'adjadj'))
+    cache = o.flag('use_cache')
+    f32 = o.flag('f32')
+    o.dom = 'pos'
+
+    def mk():
+        sp = odl.uniform_discr([-1, -1], [1, 1], (n, n),
+                               dtype='float32' if f32 else 'float64')
+        geom = odl.tomo.parallel_beam_geometry(sp, nang, ndet)
+        op = odl.tomo.RayTransform(sp, geom, impl='skimage',
+                                   use_cache=cache)
+        if how == 'adjadj':
+            return op.adjoint.adjoint
+        return op if how == 'op' else op.adjoint
+    return mk
+
+
+# --- functionals (odl.solvers.functional) ---------------------------------
+# A functional spec is a function  g(o) -> (thunk, info)  where the thunk
+# builds the functional and info = dict(dom=..., classes=[...]).
+
+FUNCS = collections.OrderedDict()
+
+
+def functional(name, classes=None, dom='mod', grad=True, prox=True,
+               conj=True, sigma_elem=False):
+    def deco(fn):
+        FUNCS[name] = dict(fn=fn, classes=classes or [name], dom=dom,
+                           grad=grad, prox=prox, conj=conj,
+                           sigma_elem=sigma_elem)
+        return fn
+    return deco
+
+
+def _fspace(o, pspace=True, **kw):
+    kw.setdefault('kinds', ('rn', 'discr'))
+    kw.setdefault('medium', True)
+    return anyspace(o, 'space', pspace=pspace, **kw)
+
+
+@functional('LpNorm', grad=False)
+def _f_lp(o):
+    # (proj_l1 behind the p=inf proximal needs a tensor space)
+    sd = _fspace(o, pspace=False)
+    p = o.pick('p', [1, 2, float('inf'), 1.5, 3])
+    return lambda: S.LpNorm(B(sd), p)
+
+
+@functional('L1Norm', sigma_elem=True)
+def _f_l1(o):
+    sd = _fspace(o)
+    return lambda: S.L1Norm(B(sd))
+
+
+@functional('L2Norm')
+def _f_l2(o):
+    sd = _fspace(o)
+    return lambda: S.L2Norm(B(sd))
+
+
+@functional('L2NormSquared', sigma_elem=True)
+def _f_l2sq(o):
+    sd = _fspace(o)
+    return lambda: S.L2NormSquared(B(sd))
+
+
+@functional('LpNorm.inf', classes=['LpNorm'], grad=False)
+def _f_linf(o):
+    sd = _fspace(o, pspace=False)
+    return lambda: S.LpNorm(B(sd), float('inf'))
+
+
+@functional('GroupL1Norm')
+def _f_gl1(o):
+    vf = _vfspace(o, cplx_ok=False)
+    p = o.pick('p', [None, 1, 2, 3, float('inf')])
+    return lambda: S.GroupL1Norm(B(vf), p)
+
+
+@functional('IndicatorGroupL1UnitBall', grad=False)
+def _f_igl1(o):
+    vf = _vfspace(o, cplx_ok=False)
+    p = o.pick('p', [None, 2, float('inf'), 1])
+    return lambda: S.IndicatorGroupL1UnitBall(B(vf), p)
+
+
+@functional('IndicatorLpUnitBall', grad=False)
+def _f_ilp(o):
+    sd = _fspace(o, pspace=False)
+    p = o.pick('p', [1, 2, float('inf'), 3])
+    return lambda: S.IndicatorLpUnitBall(B(sd), p)
+
+
+@functional('ConstantFunctional')
+def _f_const(o):
+    sd = _fspace(o)
+    c = o.scalar('c')
+    return lambda: S.ConstantFunctional(B(sd), c)
+
+
+@functional('ZeroFunctional')
+def _f_zero(o):
+    sd = _fspace(o)
+    return lambda: S.ZeroFunctional(B(sd))
+
+
+@functional('ScalingFunctional', prox=False, conj=False)
+def _f_scaling(o):
+    s = o.scalar('s')
+    return lambda: S.ScalingFunctional(odl.RealNumbers(), s)
+
+
+@functional('IdentityFunctional', prox=False, conj=False)
+def _f_ident(o):
+    return lambda: S.IdentityFunctional(odl.RealNumbers())
+
+
+@functional('IndicatorBox', grad=False, conj=False)
+def _f_box(o):
+    sd = _fspace(o)
+    lk = o.pick('lower', ('none', 'scalar', 'elem'))
+    uk = o.pick('upper', ('none', 'scalar', 'elem'))
+    lo = o.pick('lo', [-1.0, 0.0, -0.5])
+    hi = o.pick('hi', [1.0, 0.5, 2.0])
+    seed = o.seed()
+
+    def mk():
+        sp = B(sd)
+        lower = {'none': None, 'scalar': lo}.get(lk, 0)
+        upper = {'none': None, 'scalar': hi}.get(uk, 0)
+        if lk == 'elem':
+            lower = vec(sp, seed, 'prob') - 1.0
+        if uk == 'elem':
+            upper = vec(sp, seed + 1, 'prob') + 0.5
+        return S.IndicatorBox(sp, lower, upper)
+    return mk
+
+
+@functional('IndicatorNonnegativity', grad=False, conj=False)
+def _f_nonneg(o):
+    sd = _fspace(o)
+    return lambda: S.IndicatorNonnegativity(B(sd))
+
+
+@functional('IndicatorZero', grad=False)
+def _f_izero(o):
+    sd = _fspace(o)
+    c = o.scalar('c')
+    return lambda: S.IndicatorZero(B(sd), c)
+
+
+def _kl(name, cls, dom):
+    @functional(name, dom=dom)
+    def _f(o):
+        sd = _fspace(o, pspace=False)
+        prior = o.flag('prior')
+        seed = o.seed()
+
+        def mk():
+            sp = B(sd)
+            return cls(sp, vec(sp, seed, 'pos') if prior else None)
+        return mk
+
+
+_kl('KullbackLeibler', S.KullbackLeibler, 'pos')
+_kl('KullbackLeiblerConvexConj',
+    S.functional.default_functionals.KullbackLeiblerConvexConj, 'prob')
+_kl('KullbackLeiblerCrossEntropy', S.KullbackLeiblerCrossEntropy, 'pos')
+_kl('KullbackLeiblerCrossEntropyConvexConj',
+    S.functional.default_functionals.KullbackLeiblerCrossEntropyConvexConj,
+    'unit')
+
+
+@functional('SeparableSum')
+def _f_sepsum(o):
+    sd = space(o, 'space', kinds=('rn', 'discr'), medium=False)
+    n = o.pick('n', st.integers(1, 3))
+    kinds = [o.pick('k%d' % i, ('l1', 'l2', 'l2sq', 'const'))
+             for i in range(n)]
+    power = o.flag('power')
+
+    def mk():
+        sp = B(sd)
+        mkf = {'l1': S.L1Norm, 'l2': S.L2Norm, 'l2sq': S.L2NormSquared,
+               'const': lambda s: S.ConstantFunctional(s, 1.5)}
+        if power:
+            return S.SeparableSum(mkf[kinds[0]](sp), n)
+        return S.SeparableSum(*[mkf[k](sp) for k in kinds])
+    return mk
+
+
+@functional('QuadraticForm', prox=False)
+def _f_quad(o):
+    n = o.pick('n', st.integers(1, 5))
+    parts = o.pick('parts', ('op', 'vec', 'both'))
+    c = o.scalar('c')
+    seed = o.seed()
+
+    def mk():
+        sp = odl.rn(n)
+        a = _matrix(seed, n, n)
+        A = odl.MatrixOperator(a + a.T + 6 * np.eye(n)) \
+            if parts != 'vec' else None
+        v = vec(sp, seed) if parts != 'op' else None
+        return S.QuadraticForm(A, v, c)
+    return mk
+
+
+def _matrix_space(o):
+    base = space(o, 'space', kinds=('rn', 'discr'), medium=False,
+                 weighted=False, max_size=8)
+    n = o.pick('nrow', st.integers(1, 3))
+    m = o.pick('ncol', st.integers(1, 3))
+    return base, n, m
+
+
+@functional('NuclearNorm', grad=False)
+def _f_nuc(o):
+    base, n, m = _matrix_space(o)
+    oe = o.pick('outer', [1, 2, float('inf')])
+    se = o.pick('sing', [1, 2, float('inf')])
+    return lambda: S.NuclearNorm(ProductSpace(ProductSpace(B(base), m), n),
+                                 oe, se)
+
+
+@functional('IndicatorNuclearNormUnitBall', grad=False)
+def _f_inuc(o):
+    base, n, m = _matrix_space(o)
+    oe = o.pick('outer', [1, 2, float('inf')])
+    se = o.pick('sing', [1, 2, float('inf')])
+    return lambda: S.IndicatorNuclearNormUnitBall(
+        ProductSpace(ProductSpace(B(base), m), n), oe, se)
+
+
+@functional('IndicatorSimplex', grad=False, conj=False)
+def _f_simplex(o):
+    sd = _fspace(o, pspace=False)
+    d = o.scalar('diameter', positive=True)
+    return lambda: S.IndicatorSimplex(B(sd), d)
+
+
+@functional('IndicatorSumConstraint', grad=False, conj=False)
+def _f_sumc(o):
+    sd = _fspace(o, pspace=False)
+    d = o.scalar('sum_value')
+    return lambda: S.IndicatorSumConstraint(B(sd), d)
+
+
+@functional('MoreauEnvelope', prox=False, conj=False)
+def _f_moreau(o):
+    sd = _fspace(o)
+    fk = o.pick('f', ('l1', 'l2', 'l2sq'))
+    sig = o.scalar('sigma', positive=True)
+
+    def mk():
+        sp = B(sd)
+        f = {'l1': S.L1Norm, 'l2': S.L2Norm, 'l2sq': S.L2NormSquared}[fk](sp)
+        return S.MoreauEnvelope(f, sig)
+    return mk
+
+
+@functional('Huber')
+def _f_huber(o):
+    # (vector-field Huber is F11's known region: scalar fields only)
+    sd = _fspace(o, pspace=False, weighted=False)
+    g = o.pick('gamma', [0.1, 0.5, 2.0])
+    return lambda: S.Huber(B(sd), g)
+
+
+@functional('RosenbrockFunctional', prox=False, conj=False)
+def _f_rosen(o):
+    n = o.pick('n', st.integers(2, 6))
+    sc = o.pick('scale', [1.0, 100.0, 2.5])
+    return lambda: S.RosenbrockFunctional(odl.rn(n), sc)
+
+
+# derived functionals -------------------------------------------------------
+
+def _base_f(o, key='b', smooth=False):
+    """A small pool of base functionals on a given space."""
+    k = o.pick(key + '.f', ('l2sq', 'l2sq', 'l1', 'l2', 'huber')
+               if not smooth else ('l2sq',))
+
+    def mk(sp):
+        if k == 'huber' and not isinstance(sp, ProductSpace) and \
+                not sp.is_weighted:
+            return S.Huber(sp, 0.5)
+        return {'l1': S.L1Norm, 'l2': S.L2Norm}.get(k, S.L2NormSquared)(sp)
+    return mk
+
+
+def _derived(name, cls, make, grad=True, prox=True, conj=True, dom='mod',
+             pspace=True):
+    @functional(name, classes=[cls], grad=grad, prox=prox, conj=conj,
+                dom=dom)
+    def _f(o):
+        sd = _fspace(o, pspace=pspace, medium=False)
+        b = _base_f(o)
+        s = o.scalar('s', positive=True)
+        c = o.scalar('c')
+        seed = o.seed()
+        e = endo(o, 'e', ['scale', 'mult', 'ident', 'sin', 'vecsum'])
+
+        def mk():
+            sp = B(sd)
+            return make(b(sp), sp, s, c, seed, e)
+        return mk
+
+
+_derived('FunctionalLeftScalarMult', 'FunctionalLeftScalarMult',
+         lambda f, sp, s, c, seed, e: s * f)
+_derived('FunctionalRightScalarMult', 'FunctionalRightScalarMult',
+         lambda f, sp, s, c, seed, e: f * (c if c != 0 else 2.0))
+_derived('FunctionalComp', 'FunctionalComp',
+         lambda f, sp, s, c, seed, e: f * e(sp), prox=False, conj=False)
+_derived('FunctionalRightVectorMult', 'FunctionalRightVectorMult',
+         lambda f, sp, s, c, seed, e: f * vec(sp, seed, 'nz'), prox=False)
+_derived('FunctionalSum', 'FunctionalSum',
+         lambda f, sp, s, c, seed, e: f + S.L2NormSquared(sp), prox=False,
+         conj=False)
+_derived('FunctionalScalarSum', 'FunctionalScalarSum',
+         lambda f, sp, s, c, seed, e: f + c)
+_derived('FunctionalTranslation', 'FunctionalTranslation',
+         lambda f, sp, s, c, seed, e: f.translated(vec(sp, seed)))
+_derived('InfimalConvolution', 'InfimalConvolution',
+         lambda f, sp, s, c, seed, e: S.InfimalConvolution(
+             f, S.L2NormSquared(sp)), grad=False, prox=False)
+_derived('FunctionalQuadraticPerturb', 'FunctionalQuadraticPerturb',
+         lambda f, sp, s, c, seed, e: S.FunctionalQuadraticPerturb(
+             f, quadratic_coeff=s if seed % 3 else 0,
+             linear_term=vec(sp, seed) if seed % 2 else None, constant=c))
+_derived('FunctionalProduct', 'FunctionalProduct',
+         lambda f, sp, s, c, seed, e: S.FunctionalProduct(
+             f, S.L2NormSquared(sp)), prox=False, conj=False)
+_derived('FunctionalQuotient', 'FunctionalQuotient',
+         lambda f, sp, s, c, seed, e: S.FunctionalQuotient(
+             f, S.L2NormSquared(sp) + 1.0), prox=False, conj=False)
+_derived('FunctionalDefaultConvexConjugate',
+         'FunctionalDefaultConvexConjugate',
+         lambda f, sp, s, c, seed, e: S.functional.functional.FunctionalDefaultConvexConjugate(f),
+         grad=False)
+_derived('BregmanDistance', 'BregmanDistance',
+         lambda f, sp, s, c, seed, e: S.BregmanDistance(
+             S.L2NormSquared(sp) if seed % 2 else S.L1Norm(sp),
+             vec(sp, seed, 'nz'),
+             (S.L2NormSquared(sp) if seed % 2 else
+              S.L1Norm(sp)).gradient(vec(sp, seed, 'nz'))))
+_derived('SimpleFunctional', 'SimpleFunctional',
+         lambda f, sp, s, c, seed, e: S.functional.functional.simple_functional(
+             sp, fcall=lambda x: x.norm() ** 2,
+             grad=odl.ScalingOperator(sp, 2.0),
+             prox=lambda sig: odl.ScalingOperator(sp, 1 / (1 + 2 * sig)),
+             convex_conj_fcall=lambda x: x.norm() ** 2 / 4,
+             convex_conj_grad=odl.ScalingOperator(sp, 0.5),
+             convex_conj_prox=lambda sig: odl.ScalingOperator(
+                 sp, 1 / (1 + sig / 2))))
+
+
+GRADIENT_CLASSES = ['L1Gradient', 'L2Gradient', 'GroupL1Gradient',
+                    'KLGradient', 'KLCCGradient', 'KLCrossEntropyGradient',
+                    'KLCrossEntCCGradient', 'HuberGradient',
+                    'FunctionalCompositionGradient',
+                    'FunctionalProductGradient', 'FunctionalQuotientGradient',
+                    'RosenbrockGradient', 'SimpleFunctionalGradient',
+                    'SimpleFunctionalConvexConjGradient']
+
+
+def sigma_pick(o, elem_ok):
+    """Step size: positive scalar, or (where documented) element-valued."""
+    sk = o.pick('sigma.kind', ('scalar', 'scalar', 'elem') if elem_ok
+                else ('scalar',))
+    sig = o.scalar('sigma', positive=True)
+    seed = o.pick('sigma.seed', st.integers(0, 9999))
+
+    def mk(sp):
+        if sk == 'elem':
+            return vec(sp, seed, 'pos')
+        return sig
+    return mk, sk
+
+
+def _make_functional_entries(name, spec):
+    @entry('func.' + name, 'functional', classes=spec['classes'])
+    def _f(o):
+        thunk = spec['fn'](o)
+        how = o.pick('how', ('f', 'f', 'conj')) if spec['conj'] else 'f'
+        o.dom = spec['dom'] if how == 'f' else 'prob'
+        return lambda: thunk() if how == 'f' else thunk().convex_conj
+
+    if spec['grad']:
+        @entry('grad.' + name, 'gradient', classes=spec['classes'])
+        def _g(o):
+            thunk = spec['fn'](o)
+            how = o.pick('how', ('grad', 'grad', 'grad', 'conjgrad',
+                                 'gradderiv'))
+            if not spec['conj'] and how == 'conjgrad':
+                how = 'grad'
+            if name in ('ScalingFunctional', 'IdentityFunctional'):
+                how = 'grad'    # Functional.derivative needs a vector space
+            o.dom = spec['dom'] if how != 'conjgrad' else 'prob'
+            seed = o.seed('gseed')
+
+            def mk():
+                f = thunk()
+                if how == 'conjgrad':
+                    return f.convex_conj.gradient
+                g = f.gradient
+                if how == 'gradderiv':
+                    return g.derivative(vec(g.domain, seed, spec['dom']))
+                return g
+            return mk
+
+    if spec['prox']:
+        @entry('fprox.' + name, 'funcprox', classes=spec['classes'],
+               c10=True)
+        def _p(o):
+            thunk = spec['fn'](o)
+            how = o.pick('how', ('prox', 'prox', 'conjprox')) \
+                if spec['conj'] else 'prox'
+            sig, sk = sigma_pick(o, spec['sigma_elem'] and how == 'prox')
+            o.dom = spec['dom'] if how == 'prox' else 'mod'
+            if name.startswith('KullbackLeibler') and how == 'conjprox':
+                o.dom = 'pos'
+
+            def mk():
+                f = thunk()
+                if how == 'conjprox':
+                    f = f.convex_conj
+                return f.proximal(sig(f.domain))
+            return mk
+
+
+for _n, _spec in FUNCS.items():
+    _make_functional_entries(_n, _spec)
+
+
+@entry('NumericalGradient', 'gradient')
+def _numgrad(o):
+    # (the implementation indexes flat: one-dimensional spaces only)
+    sd = space(o, 'space', kinds=('rn', 'discr'), medium=False, ndims=(1, 1))
+    meth = o.pick('method', METHODS)
+    step = o.pick('step', (None, 1e-3))
+    fk = o.pick('f', ('l2sq', 'l1', 'l2'))
+    how = o.pick('how', ('op', 'op', 'derivative'))
+    seed = o.seed()
+
+    def mk():
+        sp = B(sd)
+        f = {'l1': S.L1Norm, 'l2': S.L2Norm, 'l2sq': S.L2NormSquared}[fk](sp)
+        op = S.NumericalGradient(f, method=meth, step=step)
+        if how == 'derivative':
+            return op.derivative(vec(sp, seed))
+        return op
+    return mk
+
+
+@entry('NumericalDerivative', 'gradient')
+def _numderiv(o):
+    sd = space(o, 'space', kinds=('rn', 'discr'), medium=False)
+    meth = o.pick('method', METHODS)
+    step = o.pick('step', (None, 1e-3))
+    e = endo(o, 'e', ['sin', 'exp', 'square', 'scale', 'mult'])
+    seed = o.seed()
+
+    def mk():
+        sp = B(sd)
+        return S.NumericalDerivative(e(sp), vec(sp, seed), method=meth,
+                                     step=step)
+    return mk
+
+
+# --- proximal factories (odl.solvers.nonsmooth.proximal_operators) --------
+
+def _prox_common(o, space_kw=None, pspace=True, vf=False, elem_ok=False,
+                 g_ok=True, lam_ok=True, g_dom='mod'):
+    if vf:
+        sd = _vfspace(o, cplx_ok=False)
+    else:
+        kw = dict(kinds=('rn', 'discr'), medium=True)
+        kw.update(space_kw or {})
+        sd = anyspace(o, 'space', pspace=pspace, **kw)
+    lam = o.scalar('lam', positive=True) if lam_ok else 1
+    with_g = o.flag('g') if g_ok else False
+    gseed = o.seed('gseed')
+    sig, sk = sigma_pick(o, elem_ok)
+    o.opts['variant'] = ('g' if with_g else 'nog') + ',' + sk
+    o.dom = 'mod'
+
+    def parts():
+        sp = B(sd)
+        g = vec(sp, gseed, g_dom) if with_g else None
+        return sp, lam, g, sig(sp)
+    return parts
+
+
+def _prox_entry(fname, cls, **kw):
+    @entry('prox.' + fname, 'prox', classes=[cls], c10=True, weight=2)
+    def _f(o):
+        parts = _prox_common(o, **kw)
+
+        def mk():
+            sp, lam, g, sig = parts()
+            fac = getattr(PO, fname)
+            if kw.get('g_ok', True):
+                return fac(sp, lam=lam, g=g)(sig)
+            return fac(sp)(sig)
+        return mk
+
+
+_prox_entry('proximal_l1', 'ProximalL1', elem_ok=True)
+_prox_entry('proximal_convex_conj_l1', 'ProximalConvexConjL1', elem_ok=True)
+_prox_entry('proximal_l2', 'ProximalL2')
+_prox_entry('proximal_convex_conj_l2', 'OperatorSum')
+_prox_entry('proximal_l2_squared', 'ProximalL2Squared', elem_ok=True)
+_prox_entry('proximal_convex_conj_l2_squared', 'ProximalConvexConjL2Squared',
+            elem_ok=True)
+_prox_entry('proximal_l1_l2', 'ProximalL1L2', vf=True)
+_prox_entry('proximal_convex_conj_l1_l2', 'ProximalConvexConjL1L2', vf=True)
+_prox_entry('proximal_linfty', 'ProximalLInfty', pspace=False, g_ok=False,
+            lam_ok=False)
+_prox_entry('proximal_convex_conj_linfty', 'ProximalConvexConjLinfty',
+            pspace=False, g_ok=False, lam_ok=False)
+_prox_entry('proximal_convex_conj_kl', 'ProximalConvexConjKL', pspace=False,
+            g_dom='pos')
+_prox_entry('proximal_convex_conj_kl_cross_entropy',
+            'ProximalConvexConjKLCrossEntropy', pspace=False, g_dom='pos')
+_prox_entry('proximal_const_func', 'IdentityOperator', g_ok=False,
+            lam_ok=False)
+_prox_entry('proximal_nonnegativity', 'ProxOpBoxConstraint', g_ok=False,
+            lam_ok=False)
+
+
+@entry('prox.proximal_box_constraint', 'prox',
+       classes=['ProxOpBoxConstraint'], c10=True, weight=2)
+def _prox_box(o):
+    sd = anyspace(o, 'space', kinds=('rn', 'discr'), pspace=False)
+    lk = o.pick('lower', ('none', 'scalar', 'elem'))
+    uk = o.pick('upper', ('none', 'scalar', 'elem'))
+    lo = o.pick('lo', [-1.0, 0.0, -0.5])
+    hi = o.pick('hi', [1.0, 0.5, 2.0])
+    seed = o.seed()
+    o.opts['variant'] = lk + '/' + uk
+    o.dom = 'mod'
+
+    def mk():
+        sp = B(sd)
+        lower = {'none': None, 'scalar': lo}.get(lk, 0)
+        upper = {'none': None, 'scalar': hi}.get(uk, 0)
+        if lk == 'elem':
+            lower = vec(sp, seed, 'prob') - 1.0
+        if uk == 'elem':
+            upper = vec(sp, seed + 1, 'prob') + 0.5
+        return PO.proximal_box_constraint(sp, lower, upper)(1.0)
+    return mk
+
+
+@entry('prox.proximal_huber', 'prox', classes=['ProximalHuber'], c10=True,
+       weight=2)
+def _prox_huber(o):
+    # scalar fields only (vector fields: F11's known region)
+    sd = anyspace(o, 'space', kinds=('rn', 'discr'), pspace=False,
+                  weighted=False)
+    gamma = o.pick('gamma', [0.1, 0.5, 2.0, 0.0])
+    sig = o.scalar('sigma', positive=True)
+    o.opts['variant'] = 'scalar'
+    o.dom = 'mod'
+    return lambda: PO.proximal_huber(B(sd), gamma)(sig)
+
+
+BASE_PROX = ['l1', 'l2', 'l2sq', 'ccl1', 'ccl2sq', 'box', 'linf']
+
+
+def _base_prox_factory(k, sp, lam, g):
+    if isinstance(sp, ProductSpace) and k == 'linf':
+        k = 'l2'
+    return {'l1': lambda: PO.proximal_l1(sp, lam, g),
+            'l2': lambda: PO.proximal_l2(sp, lam, g),
+            'l2sq': lambda: PO.proximal_l2_squared(sp, lam, g),
+            'ccl1': lambda: PO.proximal_convex_conj_l1(sp, lam, g),
+            'ccl2sq': lambda: PO.proximal_convex_conj_l2_squared(sp, lam, g),
+            'box': lambda: PO.proximal_box_constraint(sp, -0.5, 1.0),
+            'linf': lambda: PO.proximal_linfty(sp)}[k]()
+
+
+def _calc_entry(rule, classes):
+    @entry('prox.' + rule, 'prox', classes=classes, c10=True, weight=2)
+    def _f(o):
+        parts = _prox_common(o, pspace=(rule != 'proximal_composition'))
+        bk = o.pick('base', BASE_PROX)
+        bk2 = o.pick('base2', BASE_PROX)
+        s = o.scalar('s', nonzero=True)
+        sk = o.pick('scaling.kind', ('scalar', 'scalar', 'zero', 'array'))
+        a = o.pick('a', [0.0, 0.5, 2.0])
+        with_u = o.flag('u')
+        seed = o.seed()
+        persig = o.flag('per_component_sigma')
+        o.opts['variant'] = o.opts['variant'] + ',' + bk
+
+        def mk():
+            sp, lam, g, sig = parts()
+            fac = _base_prox_factory(bk, sp, lam, g)
+            if rule == 'proximal_convex_conj':
+                return PO.proximal_convex_conj(fac)(sig)
+            if rule == 'proximal_translation':
+                return PO.proximal_translation(fac, vec(sp, seed))(sig)
+            if rule == 'proximal_arg_scaling':
+                if sk == 'zero':
+                    sc = 0.0
+                elif sk == 'array' and not isinstance(sp, ProductSpace) \
+                        and bk in ('l1', 'l2sq', 'ccl1', 'ccl2sq'):
+                    # element-valued scaling needs a factory that accepts
+                    # element-valued steps
+                    sc = vec(sp, seed, 'pos').asarray()
+                else:
+                    sc = s
+                return PO.proximal_arg_scaling(fac, sc)(sig)
+            if rule == 'proximal_quadratic_perturbation':
+                u = vec(sp, seed) if with_u else None
+                return PO.proximal_quadratic_perturbation(fac, a, u)(sig)
+            if rule == 'proximal_composition':
+                # unitary up to scaling: L = s * I, L^* L = s^2 I
+                L = odl.ScalingOperator(sp, s)
+                return PO.proximal_composition(fac, L, s * s)(sig)
+            if rule == 'combine_proximals':
+                fac2 = _base_prox_factory(bk2, sp, lam, None)
+                comb = PO.combine_proximals(fac, fac2)
+                if persig and np.isscalar(sig):
+                    return comb([sig, 0.5 * sig])
+                return comb(sig if np.isscalar(sig) else 1.0)
+            raise HarnessError(rule)
+        return mk
+
+
+_calc_entry('proximal_convex_conj', ['OperatorSum', 'OperatorComp'])
+_calc_entry('proximal_translation', ['OperatorSum', 'OperatorComp',
+                                     'ConstantOperator'])
+_calc_entry('proximal_arg_scaling', ['OperatorComp', 'MultiplyOperator'])
+_calc_entry('proximal_quadratic_perturbation', ['OperatorComp',
+                                                'OperatorVectorSum'])
+_calc_entry('proximal_composition', ['OperatorSum'])
+_calc_entry('combine_proximals', ['DiagonalOperator'])
+
+
+@entry('proj_l1', 'prox', classes=['ProximalConvexConjLinfty'], c10=False)
+def _proj(o):
+    """proj_l1 / proj_simplex are plain functions; reached through the
+    conj-Linfty proximal and IndicatorSimplex (see fprox.*)."""
+    sd = anyspace(o, 'space', kinds=('rn', 'discr'), pspace=False)
+    o.dom = 'mod'
+    return lambda: PO.proximal_convex_conj_linfty(B(sd))(1.0)
